@@ -98,6 +98,8 @@ def _short_earlier_row(v):
 
 
 def _may_have_short_earlier_row(case):
+    if "chain" in case or case.get("py"):
+        return True            # a recorded chain: the operand is a physical layout (strided / multidimensional leaves), not the abstract encoding
     try:
         import replay
         return _short_earlier_row(replay.abstract_to_list(case["from"]))
